@@ -80,9 +80,36 @@ func (i *argumentsPropIter) next() (propIterItem, iterNextFunc) {
 		return propIterItem{}, nil
 	}
 	if prop, ok := item.value.(*mappedProperty); ok {
-		item.value = *prop.v
+		if prop.writable && prop.enumerable && prop.configurable {
+			item.value = *prop.v
+		} else {
+			// A bare value means writable, enumerable and configurable to the consumers of the iterator (Object.keys,
+			// isSealed/isFrozen, for-in, the Proxy ownKeys check), and seal/freeze modify a *valueProperty in place:
+			// carry no value, so that they look the property up through getOwnProp / defineOwnProperty.
+			item.value = nil
+		}
 	}
 	return item, i.next
+}
+
+func (a *argumentsObject) stringKeys(all bool, accum []Value) []Value {
+	a.ensurePropOrder()
+	for _, k := range a.propNames {
+		if !all {
+			switch prop := a.values[k].(type) {
+			case *valueProperty:
+				if !prop.enumerable {
+					continue
+				}
+			case *mappedProperty:
+				if !prop.enumerable {
+					continue
+				}
+			}
+		}
+		accum = append(accum, stringValueFromRaw(k))
+	}
+	return accum
 }
 
 func (a *argumentsObject) iterateStringKeys() iterNextFunc {
